@@ -34,6 +34,15 @@ def htTimedelta (days seconds microseconds femtoseconds yoctoseconds : Int) : Ex
 /-- Python `arg_to_uint` on ints: negative → ValueError. -/
 def argToUint (x : Int) : Except PyErr Int := if x < 0 then .error .ValueError else .ok x
 
+/-- `arg_to_uint(description, value, default)` for an optional argument: `None` takes the default (which is range-checked like a
+    given value); `None` without a default is a TypeError -/
+def argToUintOpt (x : Option Int) (dflt : Option Int) : Except PyErr Int :=
+  match x with
+  | some v => argToUint v
+  | none => match dflt with
+    | some d => argToUint d
+    | none => .error .TypeError
+
 /-- CPython's `hash(int)`: value mod (2^61-1) with sign, and -1 ↦ -2. -/
 def hashInt (x : Int) : Int :=
   let p : Int := 2305843009213693951
